@@ -49,6 +49,9 @@ def cases(tier):
         if levels == 3:
             out.append({'kind': 'function', 'positive': positive, 'deep_first': deep_first, 'bounds': with_bounds,
                         'separate': separate, 'levels': levels, 'second': True})
+        if with_bounds and levels == 3:
+            out.append({'kind': 'function', 'positive': positive, 'deep_first': deep_first, 'bounds': True, 'separate': separate,
+                        'levels': levels, 'second': False, 'bounds_as_coordinate': True})
         if positive is not None and levels == 3 and separate:
             out.append({'kind': 'function', 'positive': positive, 'deep_first': deep_first, 'bounds': with_bounds,
                         'separate': separate, 'levels': levels, 'second': 'shared'})
@@ -122,6 +125,8 @@ def make_dataset(case):
         info['zgrid'] = {'dim': 'kg', 'levels': levels + 1, 'positive': coord2.attrs['positive'], 'bounds': 'zgrid_bnds',
                          'data': [('w', 0)], 'sign': -1.0 if coord2.attrs['positive'] == 'up' else 1.0, 'offset': 0.0}
     ds = xr.Dataset(variables).set_coords([n for n in info])
+    if case.get('bounds_as_coordinate'):
+        ds = ds.set_coords([meta['bounds'] for meta in info.values() if meta['bounds']])
     return ds, info
 
 
@@ -233,6 +238,19 @@ def run_case(case):
             rec.nontrivial((p1, d1))
         check_state(rec, fp, label1, once, info, expected1)
         rec.check(ds.identical(snapshot), f"{fp}/input-modified", f"{label1}: the input dataset was modified", 'unchanged', 'changed')
+        # flags computed with numpy (numpy.bool_) or given as 0 / 1 mean the same as True / False
+        for convert, kind_name in ((np.bool_, 'numpy.bool_'), (int, 'int')):
+            if p1 is None and d1 is None:
+                continue
+            try:
+                with warnings.catch_warnings():
+                    warnings.simplefilter('ignore')
+                    other = lib(depth.normalize_depth_variables, ds, list(names),
+                                positive_down=None if p1 is None else convert(p1), deep_to_shallow=None if d1 is None else convert(d1))
+                rec.check(other.identical(once), f"{fp}/option-type", f"{label1}: options given as {kind_name} give another result than as bool",
+                          'identical', 'different')
+            except LibraryRaised as err:
+                rec.check(False, f"{fp}/option-type", f"{label1}: options given as {kind_name} raised", 'dataset', str(err))
         # the documented argument type is "iterable of names or data arrays": every form gives the same result
         for form in ('tuple', 'generator', 'iterator', 'map', 'arrays'):
             try:
